@@ -79,13 +79,15 @@ type Schema struct {
 	SynTerms    []string   `json:"-"`
 	Vecs        []VecOpt   `json:"vecs,omitempty"`
 	BigValues   bool       `json:"big,omitempty"`
-	IDDV        bool       `json:"iddv,omitempty"`   // the _id field carries doc values (consistent over the whole case)
-	WideDV      bool       `json:"wideDV,omitempty"` // doc-value option of the wide batches' field (consistent over the whole case)
+	IDDV        bool       `json:"iddv,omitempty"`       // the _id field carries doc values (consistent over the whole case)
+	WideDV      bool       `json:"wideDV,omitempty"`     // doc-value option of the wide batches' field (consistent over the whole case)
+	ManyFields  int        `json:"manyFields,omitempty"` // number of extra fields "m000".. (each document carries a few of them)
 	nextID      int
 }
 
 type SchemaOpts struct {
 	MinFields, MaxFields int
+	ManyFieldsPct        int  // percentage of schemas with 130..200 extra fields (field ids beyond the 1-byte varint range); default 4
 	ForceDV              bool // at least one dv field
 	ForceStored          bool
 	Synonyms             int // 0 none, 1 maybe, 2 always
@@ -116,6 +118,15 @@ func GenSchema(t *rapid.T, o SchemaOpts) *Schema {
 		f.LongAP = Chance(t, fmt.Sprintf("fieldLongAP%d", i), 10)
 		f.Geo = Chance(t, fl+"geo", 12)
 		s.Fields = append(s.Fields, f)
+	}
+	mfp := o.ManyFieldsPct
+	if mfp == 0 {
+		mfp = 4
+	}
+	if mfp > 0 && Chance(t, "manyFields", mfp) {
+		// field ids >= 128 need two varint bytes in stored records and locations
+		n := rapid.IntRange(130, 200).Draw(t, "manyFieldsN")
+		s.ManyFields = n
 	}
 	if o.ForceDV {
 		s.Fields[0].DV = true
@@ -161,6 +172,9 @@ func (s *Schema) FieldNames() []string {
 	out := make([]string, len(s.Fields))
 	for i := range s.Fields {
 		out[i] = s.Fields[i].Name
+	}
+	if s.ManyFields > 0 {
+		out = append(out, "m000", fmt.Sprintf("m%03d", s.ManyFields-1))
 	}
 	return out
 }
@@ -226,10 +240,14 @@ func (s *Schema) genTextField(t *rapid.T, fo *FieldOpt, label string, instance i
 		tok := spec.TokenSpec{Term: spec.B(term)}
 		if !fo.Freq0 {
 			tok.Freq = rapid.IntRange(1, 4).Draw(t, fmt.Sprintf("%sfreq%d", label, i))
+			if Chance(t, fmt.Sprintf("%sfreqB%d", label, i), 4) {
+				// varint-length boundaries of (freq<<1 | hasLocs)
+				tok.Freq = rapid.SampledFrom([]int{63, 64, 65, 8191, 8192}).Draw(t, fmt.Sprintf("%sfreqBv%d", label, i))
+			}
 		}
 		total += tok.Freq
 		if fo.Locs {
-			maxLocs := tok.Freq
+			maxLocs := min(tok.Freq, 4)
 			if fo.Freq0 {
 				maxLocs = 2
 			}
@@ -266,6 +284,10 @@ func (s *Schema) genTextField(t *rapid.T, fo *FieldOpt, label string, instance i
 		f.Tokens = append(f.Tokens, tok)
 	}
 	f.Len = total + rapid.IntRange(0, 3).Draw(t, label+"extraLen")
+	if Chance(t, label+"lenB", 4) {
+		// analysed lengths on varint-length boundaries of the stored norm (still < 2^30)
+		f.Len = total + rapid.SampledFrom([]int{127, 128, 16383, 16384, 2097151, 2097152, 268435455, 268435456}).Draw(t, label+"lenBv")
+	}
 	if total > 0 && f.Len < 1 {
 		f.Len = 1
 	}
@@ -330,6 +352,26 @@ func (s *Schema) GenDoc(t *rapid.T, label string, id string) spec.DocSpec {
 		}
 		for k := 0; k < inst; k++ {
 			d.Fields = append(d.Fields, s.genTextField(t, fo, fmt.Sprintf("%sf%d_%d", label, i, k), k))
+		}
+	}
+	if s.ManyFields > 0 {
+		k := rapid.IntRange(1, 4).Draw(t, label+"nMany")
+		for j := 0; j < k; j++ {
+			idx := rapid.IntRange(0, s.ManyFields-1).Draw(t, fmt.Sprintf("%smany%d", label, j))
+			name := fmt.Sprintf("m%03d", idx)
+			dup := false
+			for _, f := range d.Fields {
+				if f.Name == name {
+					dup = true
+				}
+			}
+			if dup {
+				continue
+			}
+			term := rapid.SampledFrom(s.Terms).Draw(t, fmt.Sprintf("%smanyT%d", label, j))
+			f := spec.FieldSpec{Name: name, Type: 't', Stored: idx%2 == 0, DV: idx%3 == 0, Len: 2, Value: []byte(name),
+				Tokens: []spec.TokenSpec{{Term: spec.B(term), Freq: 2, Locs: []spec.LocSpec{{Pos: 1, Start: 0, End: 1}, {Pos: 2, Start: 2, End: 3}}}}}
+			d.Fields = append(d.Fields, f)
 		}
 	}
 	if len(d.Fields) > 1 && Chance(t, label+"shuffle", 25) {
